@@ -1,5 +1,5 @@
 use crate::debugger::address::{GlobalAddress, RelocatedAddress};
-use crate::debugger::debugee::Debugee;
+use crate::debugger::debugee::{Debugee, RendezvousError};
 use crate::debugger::debugee::dwarf::unit::BsUnit;
 use crate::debugger::debugee::dwarf::unit::DieAddr;
 use crate::debugger::debugee::dwarf::unit::die::{DerefContext, Die};
@@ -92,7 +92,11 @@ impl<'a> RequirementsResolver<'a> {
     }
 
     fn resolve_tls(&self, pid: Pid, offset: u64) -> Result<RelocatedAddress, Error> {
-        let lm_addr = self.debugee.rendezvous().link_map_main();
+        let lm_addr = self
+            .debugee
+            .rendezvous_opt()
+            .ok_or(RendezvousError::NotFound)?
+            .link_map_main();
         self.debugee
             .tracee_ctl()
             .tls_addr(pid, lm_addr, offset as usize)
